@@ -1,6 +1,8 @@
 # Property -> harness groups, tiers and bounds. Read by ./check.
 COMMON = "pkg/netpol/internal/common"
 EVAL = "pkg/netpol/eval"
+CONNLIST = "pkg/netpol/connlist"
+DIFF = "pkg/netpol/diff"
 
 VALIDITY = "inputs satisfy what the Kubernetes API server enforces (DESIGN 3.3): ports 1..65535, endPort>=port, IPv4 CIDRs with excepts strictly inside, valid labels"
 
@@ -84,6 +86,20 @@ PROPS = {
                           "2 owned pods, a NetworkPolicy in two variants, 2 ANPs with symbolic priorities, the BANP; policy port ranges symbolic",
                           "longer histories; LRU eviction (needs >500 keys); SetResources", models=60),
                  thorough=ev("^ZZ_C15_", "histories of 3 operations", "longer histories; LRU eviction", models=400)),
+        ],
+    ),
+    "C12": dict(
+        assumptions=["scope: everything after YAML decoding (typed objects); the decoders and the file scanner for arbitrary bytes are outside reach (DESIGN section 7)",
+                     "no validity assumption on the hostile object: every pointer may be nil, every slice nil/empty/short, every map nil/empty/one entry, integers and booleans unconstrained symbolic, strings from hostile pools"],
+        groups=[
+            dict(pkg=CONNLIST, harness="harness/connlist", shared="harness/shared",
+                 quick=ev("^ZZ_C12_", "for each of the 15 kinds: one lazily materialised unconstrained object next to a fixed context, pushed through list (plain / exposure / focus); "
+                          "all shapes within <=3 simultaneous structural mutations (nil, empty, longer, other pool string) of the fully populated object, slices <=1",
+                          "more simultaneous mutations; longer slices; panics inside YAML/JSON decoding", models=30),
+                 thorough=ev("^ZZ_C12_", "<=4 simultaneous mutations, slices <=2", "more mutations", models=200, maxpaths=3000000)),
+            dict(pkg=EVAL, harness="harness/eval", shared="harness/shared",
+                 quick=ev("^ZZ_C12_", "eval path: InsertObject one by one + CheckIfAllowed (4 query kinds) with a hostile NetworkPolicy / ANP / BANP / Pod / Namespace", "as above", models=30),
+                 thorough=ev("^ZZ_C12_", "<=4 simultaneous mutations", "as above", models=200, maxpaths=3000000)),
         ],
     ),
 }
